@@ -61,6 +61,11 @@ CLAIMED = {
             "joints (states on the joint manifold), and System.E_pot = sum of contributions, decided for all real states and parameters.", "4/C07",
             "symbolic execution of the real force-element code on z3-term jets + z3 nlsat per scalar obligation; float replay of models",
             "Bounded grid (evidence.coverage.bounds); rod line load is covered in the rod checks' systems."),
+    "C08": ("proof", "Every reported derivative (l_q, l_dot_q, l_dot_u, W_l_q, _n_q; la_c_q/u, h_q/u, c_q/u, c_la_c, Wla_c_q; Maxwell h_q, q_dot_q/u; "
+            "Force/B_Force/Moment/B_Moment h_q; Revolute l_q..W_l_q; Motor/PD/PID Wla_tau_q/u, la_tau_q/u, q_dot_q) is compared entry by entry with the "
+            "chain-rule tangent of its primal for all real states and parameters.", "4/C08",
+            "symbolic execution of the real code on z3-term jets + z3 nlsat per scalar obligation; float replay of models",
+            "Bounded grid; the damper-force Jacobians on rigid-body pairings are decided per basis direction (two seeded directions in the quick tier)."),
 }
 
 NOT_APPLICABLE = {
